@@ -194,6 +194,13 @@ def check(col: Collector, tier: str):
     getattr_ok = any(isinstance(c, ast.Call) and call_name(c) == "getattr" and src(c.args[1]) == "name" for c in ast.walk(ib.node))
     col.add("C14.R3", "executor._ib_fetch", "fetches-requested-field", getattr_ok, "getattr(md, name) must read the requested field", ib.loc)
     check_ib_fetch_verbatim(col, "C14.R3", repo)
+    # the rendered text reaches the disk unaltered: strict UTF-8, in the base executor and in every backend override
+    from sa.props._tr import check_copy_template
+    sub_ct = Collector("C14")
+    check_copy_template(sub_ct, "C14.R3", repo, details=("render", "truncate", "written-as-strict-utf-8"))
+    for o in sub_ct.obs:
+        if o.detail == "written-as-strict-utf-8":
+            col.add("C14.R3", o.construct, o.detail, o.ok, o.msg, o.loc)
     # blocks assigned (not appended) per translation, from the whole metadata list, filtered only by type
     aat = repo.method("executor", "apply_ast_transformations", hint="common.executor")
     assigned = [st for st in walk_no_nested(aat.node) if isinstance(st, ast.Assign) and src(st.targets[0]) == "self._inject_blocks"]
@@ -202,8 +209,11 @@ def check(col: Collector, tier: str):
     ok_assign = len(assigned) == 1 and not appended
     if ok_assign:
         v = assigned[0].value
+        pmv = [n.targets[0].id for n in walk_no_nested(aat.node) if isinstance(n, ast.Assign) and isinstance(n.value, ast.Call)
+               and call_name(n.value) == "process_metadata" and isinstance(n.targets[0], ast.Name)]
         ok_assign = isinstance(v, ast.ListComp) and len(v.generators) == 1 and src(v.elt) == v.generators[0].target.id \
-            and len(v.generators[0].ifs) == 1 and "isinstance" in src(v.generators[0].ifs[0]) and "InjectCodeBlock" in src(v.generators[0].ifs[0])
+            and len(v.generators[0].ifs) == 1 and "isinstance" in src(v.generators[0].ifs[0]) and "InjectCodeBlock" in src(v.generators[0].ifs[0]) \
+            and len(pmv) == 1 and src(v.generators[0].iter) == pmv[0]
     if not ok_assign and not assigned and len(appended) == 1:
         # equivalent form: appended item by item in metadata order, starting from the list that reset() emptied (the pending-
         # translation protocol checked by C07 guarantees reset ran since the previous query)
